@@ -830,6 +830,18 @@ func (e *lfEngine) elemBits(fr *lfFrame, st *lfState, v ssa.Value, k int64) *bv 
 			}
 		}
 	}
+	// whatever the SSA form (a helper's slice parameter, a φ): a window on a tracked buffer
+	if sv, ok := e.val(fr, st, v).(vSlice); ok && sv.Org != nil {
+		if off, isK := sv.Org.Off.isConst(); isK {
+			if sv.Org.Name == "d" {
+				return bvSrc(fmt.Sprintf("d%d", off+k), 8)
+			}
+			key := fmt.Sprintf("%d[%s]", -50000-sv.Org.ID, linConst(off+k).key())
+			if iv, ok := st.heap[key].(vInt); ok && iv.B != nil {
+				return iv.B
+			}
+		}
+	}
 	return nil
 }
 
